@@ -195,3 +195,20 @@ package plot
 //@   trusted
 //@   returns (n, err)
 //@   requires [non-nil] p != nil
+
+// ErrorLabeler: a result is in the ERROR series exactly when it has a non-empty error.
+//@ func ErrorLabeler
+//@   property C17
+//@   requires [non-nil] r != nil
+//@   modifies nothing
+//@   ensures [error-field-decides] label == (r.Error == "" ? "OK" : "ERROR")
+
+// labelColors: one colour per label, no index out of range whatever the number of labels.
+//@ func labelColors
+//@   property C17
+//@   requires [palettes-initialised] len(failures) == 7 && len(successes) == 7
+//@   ensures [one-colour-per-label] len(result) == len(labels)
+//@   loop 1
+//@     invariant -1 <= rangeindex && rangeindex < len(labels) && len(colors) == rangeindex + 1 && failure >= 0 && success >= 0 && failure <= rangeindex + 1 && success <= rangeindex + 1
+//@     invariant len(failures) == 7 && len(successes) == 7 && (cap(colors) > 0 ==> fresh(colors))
+//@     decreases len(labels) - rangeindex
